@@ -201,26 +201,46 @@ def r_C31d_C29f(root):
     t = load(root, G)
     exporters = {a.asname or a.name for n in t.body if isinstance(n, ast.ImportFrom) and (n.module or "").endswith("export") for a in n.names if "export" in a.name}
     if not exporters: raise AnalysisError("generators.py: no exporter imported from textx.export")
-    for fn in [f for f in t.body if isinstance(f, ast.FunctionDef)]:
-        refs = [n for n in ast.walk(fn) if isinstance(n, ast.Name) and n.id in exporters and isinstance(n.ctx, ast.Load)]
-        if not refs: continue
-        gfs = [c for c in calls(fn, own=True) if callee_name(c) == "gen_file"]
-        for r in refs:
-            inst += 1; why = None
-            par = getattr(r, "_parent", None)
-            call = par if isinstance(par, ast.Call) and (par.func is r or (callee_name(par) == "partial" and par.args and par.args[0] is r)) else None
-            if call is None: why = "the exporter is used outside a call"
+    # by evaluation: every generator function that mentions an exporter is interpreted (overwrite on and off) with recording
+    # stand-ins -- gen_file runs the callback it is given, the exporters note whether they run inside gen_file and for which file
+    import os as _os
+    fns_g = {f.name: f for f in t.body if isinstance(f, ast.FunctionDef) and f.name != "gen_file"}
+    for fn in [f for f in t.body if isinstance(f, ast.FunctionDef) and f.name != "gen_file"]:
+        if not any(isinstance(n, ast.Name) and n.id in exporters for n in ast.walk(fn)): continue
+        for overwrite in (False, True):
+            inst += 1
+            state = {"inside": None}; exported = []; guarded = []
+            def _gen_file(input_file, output_file, gen_callback, overwrite=False, success_message="Done.", **kw):
+                guarded.append(output_file); state["inside"] = output_file
+                try: gen_callback()
+                finally: state["inside"] = None
+            def _exporter(name):
+                def run(*a, **k): exported.append((name, state["inside"], a, k))
+                return pyeval.PyFn(run)
+            def _partial(f, *a, **k):
+                if isinstance(f, pyeval.PyFn): return pyeval.PyFn(lambda *a2, **k2: f.fn(*a, *a2, **{**k, **k2}))
+                return lambda *a2, **k2: f(*a, *a2, **{**k, **k2})
+            model = {".file_name": "/in/grammar.tx", "._tx_filename": "/in/model.mdl", ".kind": "model"}
+            ps = [a_.arg for a_ in fn.args.args]
+            env = {"__functions__": {k_: v_ for k_, v_ in fns_g.items() if k_ != fn.name}, "__module__": t, "gen_file": pyeval.PyFn(_gen_file), "partial": pyeval.PyFn(_partial),
+                   "os": {".makedirs": pyeval.PyFn(lambda *a, **k: None), ".replace": pyeval.PyFn(lambda *a, **k: None), ".rename": pyeval.PyFn(lambda *a, **k: None), ".remove": pyeval.PyFn(lambda *a, **k: None), ".getcwd": pyeval.PyFn(lambda: "/cwd"), ".path": {".isdir": pyeval.PyFn(lambda p_: True), ".dirname": pyeval.PyFn(_os.path.dirname), ".basename": pyeval.PyFn(_os.path.basename), ".splitext": pyeval.PyFn(lambda p_: list(_os.path.splitext(p_))), ".join": pyeval.PyFn(_os.path.join), ".abspath": pyeval.PyFn(lambda p_: p_), ".exists": pyeval.PyFn(lambda p_: False)}},
+                   "PlantUmlRenderer": pyeval.PyFn(lambda *a, **k: {".kind": "renderer"}), "logger": {".info": pyeval.PyFn(lambda *a, **k: None), ".warning": pyeval.PyFn(lambda *a, **k: None)}}
+            for e_ in exporters: env[e_] = _exporter(e_)
+            vals = {"metamodel": {".kind": "mm"}, "model": model, "output_path": "/out", "overwrite": overwrite, "debug": False}
+            for p_ in ps: env[p_] = vals.get(p_)
+            if fn.args.kwarg: env[fn.args.kwarg.arg] = {}
+            try: pyeval.run_block(fn.body, env); err_ = None
+            except pyeval.Raised as r_: err_ = "raises " + r_.cls
+            except pyeval.Unsupported as u_: raise AnalysisError("%s: outside the evaluated subset: %s" % (fn.name, u_))
+            why = None
+            if err_: why = "the generator %s" % err_
+            elif not exported: why = "no exporter runs"
             else:
-                args = call.args[1:] if callee_name(call) == "partial" else call.args
-                gf = None
-                if callee_name(call) == "partial": gf = next((g for g in gfs if any(a is call for a in g.args) or any(k.value is call for k in g.keywords)), None)
-                else:
-                    inner = enclosing_func(call)
-                    if inner is not fn and inner is not None: gf = next((g for g in gfs if any(isinstance(a, ast.Name) and a.id == inner.name for a in g.args) or any(isinstance(k.value, ast.Name) and k.value.id == inner.name for k in g.keywords)), None)
-                if gf is None: why = "the exporter runs outside gen_file (no removal of a partial file on failure, no skip/overwrite decision)"
-                elif len(gf.args) < 2 or not any(ast.unparse(a) == ast.unparse(gf.args[1]) for a in args): why = "the exporter writes %s, gen_file guards %s" % ([ast.unparse(a) for a in args][-1:] , ast.unparse(gf.args[1]) if len(gf.args) > 1 else "?")
-            ob("C31", "C31.d", G, fn.name, "exporter %s used as gen_file's callback on gen_file's output file" % r.id, why is None)
-            if why: out.append(Finding("C31", "C31.d", G, fn.name, " ".join(ast.unparse(stmt_of(r)).split())[:100], why + ": a failure in the middle of the export leaves a partial file that the next run skips as already generated (or that nobody removes)", witness="an output folder that does not exist yet / a write failure in the middle of the export"))
+                for name, inside, a_, k_ in exported:
+                    if inside is None: why = "the exporter %s runs outside gen_file (no removal of a partial file on failure, no skip/overwrite decision)" % name; break
+                    if inside not in a_ and inside not in k_.values(): why = "the exporter %s writes %s, gen_file guards %s" % (name, [x for x in a_ if isinstance(x, str)][-1:], inside); break
+            ob("C31", "C31.d", G, fn.name, "overwrite=%s: exporters run only as gen_file's callback, on gen_file's output file" % overwrite, why is None)
+            if why: out.append(Finding("C31", "C31.d", G, fn.name, "overwrite=%s" % overwrite, why + ": a failure in the middle of the export leaves a partial file that the next run skips as already generated (or that nobody removes)", witness="textx generate --overwrite with a failing write"))
     if inst < 3: raise AnalysisError("generators.py: only %d exporter uses found" % inst)
     # ---- C29.f
     he = find(load(root, E), "html_escape"); p0 = he.args.args[0].arg
